@@ -35,6 +35,37 @@ class Sink:
         ck.touch(self.send, self.io_send, self.fs_ctor, *self.m.values())
         self._g = {}
 
+    def option_pred(self, name, fn=None):
+        """predicate over AST nodes: "the sink was created with RotatingFileSink::<name>" - a bool member initialised from
+        options.testFlag(<name>), or testFlag(<name>) / a mask test on a member that keeps the option set"""
+        F = self.F
+        en = F.enums.get("QtLogger::RotatingFileSink::Option")
+        val = {e["name"]: e["value"] for e in en["enumerators"]}.get(name) if en else None
+        flags = set()
+        for c in F.fns.values():
+            if c.cls == RP and c.d.get("kind") == "ctor":
+                for i in c.inits:
+                    e = skip_copies(i.get("e")) if isinstance(i.get("e"), dict) else None
+                    if i.get("member") and isinstance(e, dict) and is_call(e, "QFlags::testFlag") and e.get("args") and const_int(e["args"][0]) == val:
+                        flags.add(strip_tmpl(i["member"]))
+
+        def pred(n):
+            if not isinstance(n, dict):
+                return False
+            if any(is_this_field(n, q) for q in flags):
+                return True
+            x = skip_copies(n)
+            if is_call(x, "QFlags::testFlag") and x.get("args") and x.get("ck") == "member":
+                o = skip_copies(x.get("obj"))
+                a = x["args"][0]
+                v = const_int(a)
+                if v is None and fn is not None:
+                    v = const_int(deref_local(fn, a))
+                if v == val and isinstance(o, dict) and o.get("k") == "member" and is_this_field(o, strip_tmpl(o.get("name", ""))) and "QFlags" in (o.get("type") or ""):
+                    return True
+            return False
+        return pred
+
     def g(self, fn):
         if fn.id not in self._g:
             self._g[fn.id] = Graph(fn)
